@@ -53,4 +53,24 @@ theorem zones_fit_after_handling (s : Nri.LibMem.St) (nodes : Nri.LibMem.Mask) (
     ∀ z ∈ (s.handleOvercommit nodes).1.entries, (nodes = 0 ∨ z &&& nodes ≠ 0) → 0 ≤ (s.handleOvercommit nodes).1.zoneFree z :=
   Nri.LibMem.handleOvercommit_ok_fits s nodes h
 
+/-- capacity over whole histories (the clause "after every successful request, for every set of
+nodes that has allocations confined to it ..." for the sets that ARE assignments): whatever
+sequence of allocator operations the policies issue, every assigned zone - hence every memory set
+a container is pinned to - holds no more than its capacity afterwards. (C07 `run_fits`; the literal
+clause over all node sets is the known finding C07:union-overcommit.) -/
+theorem assigned_zones_fit_over_histories (nodes : List Nri.LibMem.Node) (ops : List Nri.LibMem.Op)
+    (hops : ∀ op ∈ ops, op.sizeOk) :
+    ∀ q ∈ (Nri.LibMem.St.run { nodes := nodes } ops).reqs,
+      0 ≤ (Nri.LibMem.St.run { nodes := nodes } ops).zoneFree q.zone := by
+  intro q hq
+  have h := Nri.LibMem.run_fits nodes ops hops
+  exact h.fit q hq (Nri.LibMem.and_ne_zero_left (h.inv.placed q hq))
+
+/-- ... and the memory set a pinned container is told is never empty: every assignment contains
+a node with normal memory (C07 `run_placement`). -/
+theorem assigned_zone_nonempty_over_histories (nodes : List Nri.LibMem.Node) (ops : List Nri.LibMem.Op) :
+    ∀ q ∈ (Nri.LibMem.St.run { nodes := nodes } ops).reqs, q.zone ≠ 0 := by
+  intro q hq
+  exact Nri.LibMem.and_ne_zero_left ((Nri.LibMem.run_placement nodes ops).placed q hq)
+
 end Nri.TA
